@@ -118,14 +118,17 @@ UTIL = MOD + "/util"
 
 CHECKS["C20"] = dict(
     level_text="Within the bounds the solver shows for the hand-written (vtproto) codec: encode/decode round trip with full-width numeric fields, byte-for-byte equality with an independent proto3 reference encoder, and for every input byte string up to N bytes that decoding returns without panic or out-of-range access, allocates no more than the input, and never aliases the input; and for the length-prefixed stream that packets are read back identical under every fragmentation.",
-    level_note="Bounds: one field at a time over all its varint size classes; all fields together restricted to {0, one-byte, maximal} classes; strings <=2 bytes; <=1 xattr; decoder inputs of <=3 (quick) / <=5 (thorough) arbitrary bytes; two packets per stream with <=2 data bytes. The reflection-based protobuf runtime is not encoded: interoperability with it rests on the reference encoder being proto3-conformant. math/bits.Len* is an engine intrinsic (threshold chain). " + BASE_TRUST,
+    level_note="Bounds: one field at a time over all its varint size classes; all fields set together with pairs of numeric fields symbolic over the {0, one-byte, maximal} classes; strings <=2 bytes; <=1 xattr; decoder inputs of <=3 (quick) / <=5 (thorough) arbitrary bytes; two packets per stream with <=2 data bytes. The reflection-based protobuf runtime is not encoded: interoperability with it rests on the reference encoder being proto3-conformant. math/bits.Len* is an engine intrinsic (threshold chain). " + BASE_TRUST,
     assumptions=["google.golang.org/protobuf runtime, UnmarshalVTUnsafe and allocation driven by a hostile 4-byte frame length in RecvMsg are outside the claim",
                  "sync.Pool is modelled as LIFO reuse (a Put buffer is handed out again by the next Get)"],
     obligations=
         [ob("VH_C20_stat_field", dict(F=f), pkg=TYPES, covers=["done"], bounds="Stat field %d fully symbolic" % f) for f in (2, 3, 4, 5, 6, 8, 9)] +
         [ob("VH_C20_stat_field", dict(F=f, L=2), pkg=TYPES, covers=["done"], bounds="Stat string field %d, 2 arbitrary bytes" % f) for f in (1, 7)] +
         [ob("VH_C20_stat_field", dict(F=10, L=1, L2=1), pkg=TYPES, covers=["done"], bounds="one xattr, 1-byte key and value"),
-         ob("VH_C20_stat_all", dict(L=1), T, pkg=TYPES, covers=["done"], bounds="all Stat fields, numeric classes {0,1-byte,max}"),
+         ob("VH_C20_stat_all", dict(L=1, G=0), T, pkg=TYPES, covers=["done"], bounds="all Stat fields set; Mode and Size symbolic over classes {0,1-byte,max}"),
+         ob("VH_C20_stat_all", dict(L=1, G=1), T, pkg=TYPES, covers=["done"], bounds="all Stat fields set; Uid and Gid symbolic"),
+         ob("VH_C20_stat_all", dict(L=1, G=2), T, pkg=TYPES, covers=["done"], bounds="all Stat fields set; ModTime and Devmajor symbolic"),
+         ob("VH_C20_stat_all", dict(L=1, G=3), T, pkg=TYPES, covers=["done"], bounds="all Stat fields set; Devminor and Mode symbolic"),
          ob("VH_C20_packet", dict(D=1), Q, pkg=TYPES, covers=["done"], bounds="type/id symbolic, 1 data byte, optional nested stat"),
          ob("VH_C20_packet", dict(D=2), T, pkg=TYPES, covers=["done"], bounds="type/id symbolic, 2 data bytes, optional nested stat"),
          ] +
